@@ -91,6 +91,7 @@ def run(db, rep, feat, tier):
     r2(db, rep)
     r3(db, rep)
     r4(db, rep)
+    r9(db, rep)
     # segments are placed with backing::Memory::set_memory: its overlap handling must not lose a neighbouring segment
     import props.c16 as c16
     before = len(rep.rules)
@@ -218,6 +219,18 @@ def r2(db, rep):
                 outside = sum(1 for x in walk(hb["body"]) if last_seg(callee(x) or "") == "set_memory")
                 ptload = inside and outside == 1
     r.decide(ptload, "memory|PT_LOAD_only", db.where(hb), "set_memory must be called only under p_type == PT_LOAD")
+    # ... and every PT_LOAD header reaches it: inside the PT_LOAD branch no `continue` / early exit other than an error return
+    skip = None
+    for n in walk(hb["body"]):
+        if n.get("k") == "If":
+            c = unq(n["c"])
+            if c.get("k") == "Binary" and c.get("op") == "Eq" and any(last_seg(x["res"].get("def", "") or "") == "PT_LOAD" for x in walk(c) if x.get("k") == "Path"):
+                for x in walk(n["then"]):
+                    if x.get("k") in ("Continue", "Break"):
+                        skip = x
+    r.decide(skip is None, "memory|every_PT_LOAD_mapped", db.where(hb, skip["l"]) if skip else db.where(hb),
+             "a PT_LOAD segment can be skipped (continue/break inside the PT_LOAD branch): e.g. a segment with p_filesz == 0 and "
+             "p_memsz > 0 (.bss only) must still be mapped as zeros with its permissions")
     import props.c20 as c20
     before = len(rep.rules)
     c20.r5(db, rep)
@@ -226,6 +239,62 @@ def r2(db, rep):
         for i in rr.instances:
             i["key"] = "R2." + i["key"]
             i["rule"] = rr.id
+
+
+def lin(t, atoms):
+    """Linear form {atom index: coefficient} of a term built with +/- over the given atom terms; None if not of that form."""
+    from mirterm import strip_overflow
+    t = strip_overflow(t)
+    for k, a in enumerate(atoms):
+        if t == a:
+            return {k: 1}
+    if isinstance(t, tuple) and t and t[0] == "bin" and t[1] in ("Add", "Sub", "AddWithOverflow", "SubWithOverflow", "AddUnchecked", "SubUnchecked"):
+        a, b = lin(t[2], atoms), lin(t[3], atoms)
+        if a is None or b is None:
+            return None
+        sign = 1 if t[1].startswith("Add") else -1
+        out = dict(a)
+        for k, v in b.items():
+            out[k] = out.get(k, 0) + sign * v
+        return {k: v for k, v in out.items() if v}
+    if isinstance(t, tuple) and t and t[0] == "cast":
+        return lin(t[1], atoms)
+    return None
+
+
+def r9(db, rep):
+    from mirterm import terms_of
+    from db import mir_calls, mir_callee
+    r = rep.rule("R9", "K5", "MIPS GOT: the pass that adds the base address covers every GOT word the per-symbol pass may leave "
+                 "untouched - its range is 0 .. local_gotno + (symtabno - gotsym) where gotsym .. symtabno is the range of the "
+                 "per-symbol pass and local_gotno its first slot")
+    fn = "loader::elf::elf_linker::ElfLinker::relocations_mips"
+    body = db.mir.get(fn)
+    rep.anchor(body is not None, fn)
+    tm = terms_of(db, fn, {})
+    ranges = []
+    for i, b in enumerate(body["blocks"]):
+        for s_ in b["s"]:
+            rv = s_.get("rv", {})
+            if rv.get("k") == "Aggregate" and str(rv.get("variant", "")).endswith("ops::Range") and len(rv.get("ops", ())) == 2:
+                ranges.append((s_["l"], tm.operand(rv["ops"][0]), tm.operand(rv["ops"][1])))
+    ranges.sort(key=lambda x: x[0])
+    rep.anchor(len(ranges) >= 2, "the two GOT passes of relocations_mips")
+    (l1, s1, e1), (l2, s2, e2) = ranges[0], ranges[1]
+    # local_gotno: the dynamic entry read with the DT_MIPS_LOCAL_GOTNO tag, recognised as the remaining atom of e1
+    from mirterm import subterms as tsub, strip_overflow
+    atoms = [e2, s2]
+    cand = [x for x in tsub(e1) if isinstance(x, tuple) and x and x[0] == "field" and x not in atoms and lin(x, atoms) is None
+            and any(isinstance(y, tuple) and y and y[0] == "call" and str(y[1]).endswith("get_dynamic") for y in tsub(x))]
+    ok = False
+    why = "range end %s" % "?"
+    for c in cand:
+        f = lin(e1, [e2, s2, c])
+        if f == {0: 1, 1: -1, 2: 1}:
+            ok = True
+    r.decide(s1 == ("const", 0) and ok, "mips_got|rebase_pass_covers_symbol_pass", db.where(body, l1),
+             "the base-address pass does not cover local_gotno + (symtabno - gotsym) GOT words: global entries of symbols the object "
+             "defines itself keep their link-time value")
 
 
 def r3(db, rep):
